@@ -1559,9 +1559,9 @@ def ADC(
 
     V_min, V_max = shortest_int(signal, 99.99)
     
-    dig_signal = np.round(
-        (signal - V_min) / (V_max - V_min) * (2**n - 1)
-    ).astype(int)  # quantize signal between 0 and 2**n-1
+    dig_signal = np.clip(
+        np.round((signal - V_min) / (V_max - V_min) * (2**n - 1)), 0, 2**n - 1
+    ).astype(int)  # quantize signal between 0 and 2**n-1, samples outside [V_min, V_max] saturate at the end codes
     
     if otype == 'v':
         dig_signal = (
